@@ -17,12 +17,18 @@ def parseInt (s : String) : Option Int :=
   | '+' :: r => (fun n => (n : Int)) <$> digitsToNat r
   | r => (fun n => (n : Int)) <$> digitsToNat r
 
+/-- `String.trimAscii` on character lists: drop `Char.isWhitespace` characters at both ends. Same result as
+    `s.trimAscii.toString.toList`, but by structural recursion, so `decide` can evaluate it (the library function goes
+    through string slices and does not reduce in the kernel). -/
+def trimList (cs : List Char) : List Char :=
+  ((cs.dropWhile Char.isWhitespace).reverse.dropWhile Char.isWhitespace).reverse
+
 def pow10Rat (k : Int) : Rat :=
   if k ≥ 0 then ((10 ^ k.toNat : Nat) : Rat) else 1 / ((10 ^ (-k).toNat : Nat) : Rat)
 
 /-- `[sign] digits [. digits] [e|E [sign] digits]`, at least one mantissa digit; exact value -/
 def parse (s : String) : Option Rat :=
-  let cs := s.trimAscii.toString.toList
+  let cs := trimList s.toList
   let (neg, cs) := match cs with
     | '-' :: r => (true, r)
     | '+' :: r => (false, r)
